@@ -19,6 +19,15 @@ ENGINES = [
 ]
 NOT_APPLICABLE = {}
 CHECKS = {
+    "C18": dict(
+        engine="hist (on zsym) + euf", level="translation_validation", design_ref="DESIGN.md section 4 / C18",
+        technique="symbolic execution (zsym/z3) of convenience.extract / analyze_implicit_usage over sources with symbolic captures and symbolic cuts; independent backward slice + EUF equivalence (z3) of the extracted graph with the source region",
+        text=("Sources: main graphs of 9 family models, two model-local functions, two graph views and a nested family whose body nodes (depth 1 and 2, GRAPH and GRAPHS attributes) capture symbolically selected outer values. The cut is symbolic: one bit per scope value "
+              "selects the boundary inputs, every value is tried as first output with a symbolic optional second output, passed by object / by name / in reversed order. On every path: the result shares no graph/node/value with the source; its nodes are exactly the "
+              "independently computed backward slice in source order; needed initializers are present with equal bytes; an uncovered non-initializer requirement raises, and nothing else does; z3 proves (EUF) that with the result's inputs bound to the source's "
+              "boundary values its outputs equal the source's values for all inputs and operator semantics. analyze_implicit_usage must equal the brute-force capture sets of every nested graph for every capture pattern."),
+        note="Trusted: z3; the EUF encoder (shared with C05); proxies cross-checked per path. Sources must be topologically ordered (documented cloner assumption); extraction from a nested body and > 2 outputs are outside the bound.",
+    ),
     "C14": dict(
         engine="hist (on zsym) + shadow passes", level="other", design_ref="DESIGN.md section 4 / C14",
         technique="symbolic execution (zsym/z3) of pass invocations over a model family: pass selector, invocation mode, the strip limit of call_onnx_api, which initializers are graph inputs and ONNX-boundary faults are symbolic; contract oracles; per-path native re-execution",
